@@ -210,7 +210,9 @@ def scriptH : Handler := fun req => do
           | .arr #[v, n, k] =>
             let c := canonString (← toJ v)
             pre := insertA c (← chars n) pre
-            if (lookupA c metas).isNone then metas := metas ++ [(c, ← optStrs k)]
+            -- both tables are BTreeMaps filled row by row: a later row with the same canonical form replaces the
+            -- earlier one, name AND enum key
+            metas := insertA c (← optStrs k) metas
           | _ => throw "pre row"
         let mut epre := []
         for r in (← arr (fieldD s "enums" (Json.arr #[]))) do
@@ -257,7 +259,7 @@ def kindOf (s : Json) : Kind :=
   else if hasKey s "properties" then .object
   else .other
 
-def unionOf (s : Json) : UnionS :=
+def unionOf (s : Json) (tagged : List (List Char) := []) : UnionS :=
   let vs := if (arrD s "oneOf").isEmpty then arrD s "anyOf" else arrD s "oneOf"
   let vars := vs.map fun v =>
     match refNameOf v with
@@ -269,7 +271,9 @@ def unionOf (s : Json) : UnionS :=
   let d := fieldD s "discriminator" Json.null
   let disc := match d.getObjVal? "propertyName" with | .ok (.str p) => some p.toList | _ => none
   let mapped := match d.getObjVal? "mapping" with | .ok (.obj m) => !m.toList.isEmpty | _ => false
-  { vars, disc, mapped }
+  -- `tagged`: the pool's components that carry a `const` tag and are registered in the discriminator cache
+  let implicit := disc.isSome && !mapped && !vars.isEmpty && vars.all fun v => match v with | Var.ref n => tagged.contains n | _ => false
+  { vars, disc, mapped, implicit }
 
 structure OccIn where
   occ : Occ
@@ -310,6 +314,16 @@ def nameClash (a b : OccIn) : Bool :=
     (it.occ.kind != .enum || it.occ.ekey != pr.occ.ekey)
   a.occ.named.isNone && b.occ.named.isNone && a.holder == b.holder && (dir a b || dir b a)
 
+/-- F-C13-7: the same two names, but the sibling member `H.p` holds an inline union with a MAPPED discriminator: the
+tag-dispatching enum is emitted under the contested name `H` + Pascal(`p`) (the renaming of a registration that lost
+the name, `apply_name_to_type`, does not reach it) while the member is typed with the fresh name `…2`, which nothing
+defines; the array's item type of that name is dropped -/
+def nameClashDisc (a b : OccIn) : Bool :=
+  let dir (it pr : OccIn) : Bool :=
+    it.single.isSome && pr.single.isNone && it.single == some pr.prop && pr.occ.kind == .union &&
+    (unionOf pr.schema).mapped && pr.occ.refs.length ≥ 2 && it.occ.canon != pr.occ.canon
+  a.occ.named.isNone && b.occ.named.isNone && a.holder == b.holder && (dir a b || dir b a)
+
 /-- reflexive-transitive closure of a pair relation on `0..n`, as component labels -/
 def components (n : Nat) (rel : Nat → Nat → Bool) : List Nat :=
   let step (lab : List Nat) : List Nat :=
@@ -332,14 +346,14 @@ def namedSorted (os : List OccIn) : List Occ :=
   let ns := os.filterMap fun o => o.occ.named.map fun n => (n, o.occ)
   (sortKV (ns.map fun (n, _) => (n, J.null))).filterMap fun (n, _) => ns.lookup n
 
-def classesFor (a b : Json) : List String :=
+def classesFor (a b : Json) (tagged : List (List Char) := []) : List String :=
   match kindOf a, kindOf b with
   | .enum, .enum =>
     match (arrD a "enum").mapM jvOf, (arrD b "enum").mapM jvOf with
     | .ok va, .ok vb => if enumKey va == enumKey vb && KnownNonStringEnum va vb && !sameMembers (wireVals va) (wireVals vb) then ["KnownNonStringEnum"] else []
     | _, _ => []
   | .union, .union =>
-    let ua := unionOf a; let ub := unionOf b
+    let ua := unionOf a tagged; let ub := unionOf b tagged
     if !shareNamedU ua ub then [] else
     (if KnownUnionVariantOrder ua ub then ["KnownUnionVariantOrder"] else []) ++
     (if KnownUnionExtraInline ua ub then ["KnownUnionExtraInline"] else []) ++
@@ -361,6 +375,7 @@ def shareSitesH : Handler := fun req => do
   let impl ← field req "impl"
   let occsJ ← arr (← field inp "occs")
   let occs ← occsJ.mapM occOf
+  let taggedRefs : List (List Char) := ((arr (fieldD inp "tagged_refs" (Json.arr #[]))).toOption.getD []).filterMap fun x => x.getStr?.toOption.map String.toList
   let n := occs.length
   let extra ← match fieldD inp "extra" Json.null with
     | .null => pure none
@@ -394,7 +409,8 @@ def shareSitesH : Handler := fun req => do
   -- F13-6 name clash: which of the clashing types wins depends on generation order and on the pre-scan's choice of
   -- name, which the token model does not carry: with a clash pair present the implementation's pattern has to lie
   -- between the token pattern and its closure under the clash pairs
-  let clash (i k : Nat) : Bool := match occs[i]?, occs[k]? with | some a, some b => nameClash a b | _, _ => false
+  let clashDisc (i k : Nat) : Bool := match occs[i]?, occs[k]? with | some a, some b => nameClashDisc a b | _, _ => false
+  let clash (i k : Nat) : Bool := clashDisc i k || match occs[i]?, occs[k]? with | some a, some b => nameClash a b | _, _ => false
   let hasClash := (idxPairs n).any fun (i, k) => clash i k
   let between (tk : List Tok) (ip : List (Nat × Nat)) : Bool :=
     let lab := components n fun i k => clash i k || (match tk[i]?, tk[k]? with | some a, some b => a == b | _, _ => false)
@@ -404,6 +420,9 @@ def shareSitesH : Handler := fun req => do
   /- a site is touched by the clash when its token class contains a member of a clash pair -/
   let touched (tk : List Tok) (i : Nat) : Bool :=
     (List.range n).any fun j => (tk[j]? == tk[i]?) && (List.range n).any fun k => clash j k || clash k j
+  let touchedDisc (tk : List Tok) (i : Nat) : Bool :=
+    (List.range n).any fun j => (tk[j]? == tk[i]?) && (List.range n).any fun k => clashDisc j k || clashDisc k j
+  let clashClass (tk : List Tok) (i : Nat) : String := if touchedDisc tk i then "KnownInlineDiscUnionNameClash" else "KnownInlineEnumNameClash"
   let siteErr (run : Json) (i : Nat) : Bool := match run.getObjVal? "sites" with
     | .ok (.arr a) => match a[i]? with | some s => (s.getObjVal? "err").toOption.isSome | none => true
     | _ => true
@@ -429,11 +448,11 @@ def shareSitesH : Handler := fun req => do
         | some r, some oi =>
           match occsR[r]? with
           | some orp =>
-            let cs := if r != i then classesFor oi.schema orp.schema else []
-            let cs := if cs.isEmpty && touched toksR i then ["KnownInlineEnumNameClash"] else cs
+            let cs := if r != i then classesFor oi.schema orp.schema taggedRefs else []
+            let cs := if cs.isEmpty && touched toksR i then [clashClass toksR i] else cs
             if !cs.isEmpty then attributed := attributed + 1; known := cs ++ known
-          | none => if touched toksR i then attributed := attributed + 1; known := "KnownInlineEnumNameClash" :: known
-        | _, _ => if touched toksR i then attributed := attributed + 1; known := "KnownInlineEnumNameClash" :: known
+          | none => if touched toksR i then attributed := attributed + 1; known := clashClass toksR i :: known
+        | _, _ => if touched toksR i then attributed := attributed + 1; known := clashClass toksR i :: known
   let ok := bad.isEmpty && errs.isEmpty
   let judge := verdict ok (if !errs.isEmpty then [] else if bad.length == attributed then known.eraseDups else []) (String.intercalate "; " (errs ++ bad))
   let branch := if !bad.isEmpty then "unsound-share" else if !mPat.isEmpty || !mOnX.isEmpty then "share" else "distinct"
